@@ -148,6 +148,8 @@ func (q Query) Coq() string {
 
 // Op is one step of a history.
 type Op struct {
+	// InstOnly: run (and commit) this packet on the instrumented instance only
+	InstOnly bool
 	Kind string // recv msg deposit query
 	Pkt  Packet
 	Plan []bool // recv/msg: fault plan (nil: none)
@@ -590,7 +592,7 @@ func (w *W) RunOp(ctx sdk.Context, op Op) (o OpObs) {
 	o.Before = w.Snap(ctx)
 	switch op.Kind {
 	case "recv":
-		faulty := len(op.Plan) > 0 || op.Lie != 0 || w.InstOnly
+		faulty := len(op.Plan) > 0 || op.Lie != 0 || w.InstOnly || op.InstOnly
 		if op.Ref && (!IsOrbiterFlow(op.Pkt) || op.Callback != "") {
 			o.RefDiff, o.RefRan = w.refCompare(ctx, op), true
 		}
